@@ -272,7 +272,9 @@ Proof.
   { destruct (if is_prefix s_0x (t_val t) then parse_int 16 (drop 2 (t_val t)) else parse_int 10 (t_val t)) as [z|];
       [apply (sim_ok strip_pos isx (NInt (t_pos t) z)); reflexivity | apply errorf_sim]. }
   destruct (t_typ t =? pk_itemFloat).
-  { destruct (parse_float (t_val t)) as [f|]; [apply (sim_ok strip_pos isx (NFloat (t_pos t) f)); reflexivity | apply sim_crash]. }
+  { destruct (parse_float (t_val t)) as [f|]; [apply (sim_ok strip_pos isx (NFloat (t_pos t) f)); reflexivity|].
+    destruct (parse_float_round (t_val t)) as [f| |];
+      [apply (sim_ok strip_pos isx (NFloat (t_pos t) f)); reflexivity | apply errorf_sim | apply errorf_sim]. }
   destruct (t_typ t =? pk_itemString).
   { destruct (unquote_string (t_val t)) as [s|]; [apply (sim_ok strip_pos isx (NString (t_pos t) (t_val t) s)); reflexivity | apply errorf_sim]. }
   destruct (t_typ t =? pk_itemLeftBracket); [apply parse_list_or_map_sim|].
